@@ -148,6 +148,25 @@ def name_path_rules(rep, ctx, mod, cg, prefix=""):
                         and bl.unvisited_ok and SLASH not in bl.final_values and fn.dominates(bl.loop["header"], st.block.id):
                     ok = True
                     rep.sample({"loop": fn.cname, "paths": bl.path_detail, "final_values": _ranges(bl.final_values)})
+            if not ok:
+                # scrub after the store: a byte loop over header->filename itself (read back through the field), from its first byte to the
+                # NUL, leaving no '/', on every path from the store to a successful return
+                for bl in loops:
+                    if bl.base is None or M.match(("load", ("field", HDR, "filename", ANY)), bl.base, {}) is None:
+                        continue
+                    if not (bl.start_ok and bl.step_ok and bl.exit == "nul" and bl.unvisited_ok and SLASH not in bl.final_values):
+                        continue
+                    cut = set(bl.loop["exits"])
+                    bad = []
+                    for vv, pb, b in success_edges(F, fn):
+                        tgt = pb if pb is not None else b
+                        if tgt in bl.loop["body"]:
+                            bad.append(tgt)
+                        elif tgt == st.block.id or F.reaches_avoiding(st.block.id, tgt, cut):
+                            bad.append(tgt)
+                    if not bad and bl.loop["header"] in after:
+                        ok = True
+                        rep.sample({"loop": fn.cname, "paths": bl.path_detail, "final_values": _ranges(bl.final_values), "form": "scrub after the store"})
             rep.check(rid, ok, inst + " (buffer left without '/' by a loop over all its bytes)", st.where(),
                       "no sanitising loop over the stored buffer proves the absence of '/'", function=fn.cname, obj="filename-store")
     if sp:
@@ -184,6 +203,8 @@ def name_path_rules(rep, ctx, mod, cg, prefix=""):
                 rep.assumed(rid, "%s writes %s bytes" % (cn, f), "A-tolower", "libc tolower() maps only 'A'-'Z' (to 'a'-'z'): it cannot introduce '/' into a file name", sts[0].where())
             else:
                 rep.ok(rid, "%s writes %s bytes: %s" % (cn, f, allowed[(cn, f)]), None, sts[0].where())
+        elif f == "filename" and all(st.op == "store" and is_const(st.ops[0]) and const_val(st.ops[0]) is not None and (const_val(st.ops[0]) & 0xFF) not in (SLASH,) for st in sts):
+            rep.ok(rid, "%s writes %s bytes: only constants other than '/' (cannot introduce a separator)" % (cn, f), None, sts[0].where())
         else:
             rep.violation(rid, "%s writes bytes of header->%s" % (cn, f), sts[0].where(), "a function outside the listed normalisers modifies name/path bytes",
                           function=cn, obj=f)
